@@ -153,6 +153,9 @@ def h2_system(ctx, K, stop, ray, obj, mirror=False, edit=False):
         o = L.build(aperture=('EPD', epd), field_type='angle', fields=(series(ctx, 0.0, th),))
         P = 0.0
         H = 1.0
+    epl = ctx.val(o.paraxial.EPL())
+    if not ctx.finite(epl):
+        return          # (stop in the focal plane of the front group: the entrance pupil is at infinity, no ray can be aimed at it)
     if ctx.sym:
         from symopt.facade import oarr
         arrP = oarr([P]) if not isinstance(P, float) else ctx.arr(P)
